@@ -22,7 +22,8 @@ PLAIN_NAMES = ["a", "b", "Wait", "message_Talk", "camera_Move2Default", "se_Play
                "Hold", "JumpCommon", "Destroy", "flag_Set", "flag_CalcValue", "message_SwitchTalk", "CaseText",
                "DefaultText", "ProcessSpecial", "WaitExecuteLives", "_u", "Z9"]
 
-SIMPLE_STRS = ["", "x", "Hello World", "ab c", "né", "日本", "a-b", "1", "  lead", "trail  ", "q?!"]
+SIMPLE_STRS = ["", "x", "Hello World", "ab c", "né", "日本", "a-b", "1", "  lead", "trail  ", "q?!",
+               "a\n\nb", "l1\nl2", "\nlead", "trail\n", "it's", 'say "hi"', "a\n\n\nb\n"]   # multi-line values incl. empty lines, quotes
 CONSTS = ["ACTOR_PLAYER", "$SCENARIO_MAIN", "$X", "DMODE_OPEN", "LEVEL_A", "_c", "$PERFORMANCE_PROGRESS_LIST", "FALSE_"]
 LANGS = ["english", "french", "german", "italian", "spanish", "japanese"]
 
